@@ -35,6 +35,9 @@ class _Cont(Exception):
     pass
 
 
+_MISSING = object()
+
+
 class Raised(Exception):
     """the fragment executed a `raise` / failed `assert`"""
 
@@ -185,6 +188,22 @@ class Ev:
         if isinstance(st, ast.If):
             self.block(st.body if self.ev(st.test) else st.orelse)
             return
+        if isinstance(st, ast.Match):
+            subject = self.ev(st.subject)
+            for case in st.cases:
+                binds = {}
+                if self._match(case.pattern, subject, st.subject, binds):
+                    saved = {k: self.env.get(k, _MISSING) for k in binds}
+                    self.env.update(binds)
+                    if case.guard is None or self.ev(case.guard):
+                        self.block(case.body)
+                        return
+                    for k, v in saved.items():
+                        if v is _MISSING:
+                            self.env.pop(k, None)
+                        else:
+                            self.env[k] = v
+            return
         if isinstance(st, ast.Return):
             raise _Ret(self.ev(st.value) if st.value is not None else None)
         if isinstance(st, ast.For):
@@ -291,6 +310,59 @@ class Ev:
                         self.env[h.name] = exc
                     return self.block(h.body)
         raise exc
+
+    def _match(self, pat_, value, subject_expr, binds):
+        """structural pattern matching on the evaluated subject; class patterns go through `isinstance(...)` as a call,
+        so that the hooks which answer isinstance for stand-in objects apply"""
+        if isinstance(pat_, ast.MatchAs):
+            if pat_.pattern is not None and not self._match(pat_.pattern, value, subject_expr, binds):
+                return False
+            if pat_.name is not None:
+                binds[pat_.name] = value
+            return True
+        if isinstance(pat_, ast.MatchOr):
+            return any(self._match(p, value, subject_expr, binds) for p in pat_.patterns)
+        if isinstance(pat_, ast.MatchValue):
+            return value == self.ev(pat_.value)
+        if isinstance(pat_, ast.MatchSingleton):
+            return value is pat_.value
+        if isinstance(pat_, ast.MatchClass):
+            if pat_.patterns or pat_.kwd_patterns:
+                raise Undecided("class pattern with sub-patterns")
+            holder = "__match_subject__"
+            old = self.env.get(holder, _MISSING)
+            self.env[holder] = value
+            try:
+                call = ast.Call(func=ast.Name(id="isinstance", ctx=ast.Load()),
+                                args=[ast.Name(id=holder, ctx=ast.Load()), pat_.cls], keywords=[])
+                ast.copy_location(call, pat_)
+                ast.fix_missing_locations(call)
+                return bool(self.ev(call))
+            finally:
+                if old is _MISSING:
+                    self.env.pop(holder, None)
+                else:
+                    self.env[holder] = old
+        if isinstance(pat_, ast.MatchSequence):
+            try:
+                vs = list(value)
+            except TypeError:
+                return False
+            if isinstance(value, (str, bytes)):
+                return False
+            stars = [i for i, p in enumerate(pat_.patterns) if isinstance(p, ast.MatchStar)]
+            if not stars:
+                return len(vs) == len(pat_.patterns) and all(self._match(p, v, subject_expr, binds) for p, v in zip(pat_.patterns, vs))
+            i = stars[0]
+            after = len(pat_.patterns) - i - 1
+            if len(vs) < len(pat_.patterns) - 1:
+                return False
+            ok = all(self._match(p, v, subject_expr, binds) for p, v in zip(pat_.patterns[:i], vs[:i])) and \
+                all(self._match(p, v, subject_expr, binds) for p, v in zip(pat_.patterns[i + 1:], vs[len(vs) - after:]))
+            if ok and pat_.patterns[i].name is not None:
+                binds[pat_.patterns[i].name] = vs[i:len(vs) - after]
+            return ok
+        raise Undecided("pattern " + type(pat_).__name__)
 
     def assign(self, t, v):
         if isinstance(t, ast.Name):
